@@ -20,10 +20,28 @@ func felHex32(s string) *[32]byte {
 	return (*[32]byte)(b)
 }
 
+var felNatMods = map[string]*vh.Modulus{}
+
+func felNatMod(mhex string) *vh.Modulus {
+	if m, ok := felNatMods[mhex]; ok {
+		return m
+	}
+	b, err := hex.DecodeString(mhex)
+	if err != nil {
+		panic("harness: fel: bad modulus")
+	}
+	m, err := vh.NewModulusFromBytes(b)
+	if err != nil {
+		panic("harness: fel: modulus refused: " + err.Error())
+	}
+	felNatMods[mhex] = m
+	return m
+}
+
 type felPrim func(a, b *[32]byte, alias int) (out [32]byte, flag int, ok bool)
 
 // felLookup maps (field, op) of the specification to a primitive; ok=false: the primitive does not exist in this build.
-func felLookup(field, op string) (prim felPrim, binary bool, skip bool) {
+func felLookup(field, op, mhex string) (prim felPrim, binary bool, skip bool) {
 	n := 0
 	switch op {
 	case "sqr1":
@@ -63,6 +81,34 @@ func felLookup(field, op string) (prim felPrim, binary bool, skip bool) {
 			o, f := vh.Gfp(name, a, b, n, alias)
 			return o, f, true
 		}, op == "mul" || op == "add" || op == "sub", false
+	case "natn", "natn9":
+		return func(a, b *[32]byte, alias int) (out [32]byte, flag int, ok bool) {
+			m := felNatMod(mhex)
+			x, e1 := vh.NewNat().SetBytes(a[:], m)
+			y, e2 := vh.NewNat().SetBytes(b[:], m)
+			if e1 != nil || e2 != nil {
+				panic("harness: fel: Nat.SetBytes refused an operand below the modulus")
+			}
+			// Nat operations write their receiver: x op= y; alias 2 makes both operands the same object when they are equal in value
+			if alias == 2 {
+				if *a != *b {
+					return out, 0, false
+				}
+				y = x
+			}
+			switch op {
+			case "mul":
+				x.Mul(y, m)
+			case "add":
+				x.Add(y, m)
+			case "sub":
+				x.Sub(y, m)
+			default:
+				panic("harness: fel: unknown op " + op)
+			}
+			copy(out[:], x.Bytes(m))
+			return out, 0, true
+		}, true, false
 	case "fiatp":
 		return func(a, b *[32]byte, alias int) (out [32]byte, flag int, ok bool) {
 			x, e1 := new(vh.FiatP256Element).SetBytes(a[:])
@@ -141,7 +187,11 @@ func init() {
 				}
 				continue
 			}
-			prim, binary, skip := felLookup(field, op)
+			mhex := ""
+			if st.Has("m") {
+				mhex = st.Str("m")
+			}
+			prim, binary, skip := felLookup(field, op, mhex)
 			if skip {
 				continue
 			}
@@ -174,7 +224,10 @@ func init() {
 				bv := felHex32(bs[j : j+64])
 				for alias := 0; alias <= 2; alias++ {
 					x, y := *av, *bv
-					out, _, _ := prim(&x, &y, alias)
+					out, _, ok := prim(&x, &y, alias)
+					if !ok {
+						continue
+					}
 					if got := hex.EncodeToString(out[:]); got != exps[j:j+64] {
 						return &Mismatch{Step: i, Kind: "mismatch", Got: got, Exp: exps[j : j+64], Note: fmt.Sprintf("%s.%s(%s, %s) alias=%d", field, op, a, bs[j:j+64], alias)}
 					}
